@@ -350,10 +350,10 @@ def helper_contract_unit(nR, nS, shrink_iters=2):
         c.prove(safe is True, "helper reports safe")
         c.prove(tau2 > 0, "returned tau is positive")
         c.prove(tau2 <= tau, "returned tau does not exceed the proposed tau")
-    return Unit("C04.helper[_tau_leap.pyx de-typed,rates=%d,states=%d]" % (nR, nS), h,
+    return Unit("C04.helper[_tau_leap.pyx de-typed,rates=%d,states=%d,shrink<=%d]" % (nR, nS, shrink_iters), h,
                 bounds={"rates": nR, "states": nS, "pdtr": "uninterpreted function with values in [0,1]",
                         "shrink_iterations": "paths needing more than the decision-depth bound are cut"},
-                max_paths=400, allow_aborts=True)
+                max_paths=6000, allow_aborts=True, time_budget_s=1500)
 
 
 def shape_specs():
@@ -413,8 +413,12 @@ class C04(Check):
         us.append(jump_unit(expr.by_name("sir"), True, K))
         us.append(jump_unit(expr.by_name("sir_bd_multi"), True, 2))
         us.append(helper_contract_unit(1, 1))
+        us.append(helper_contract_unit(2, 1))
         if tier != "quick":
+            us.append(helper_contract_unit(1, 2))
+            us.append(helper_contract_unit(1, 1, 4))
             us.append(helper_contract_unit(2, 2))
+            us.append(helper_contract_unit(3, 2, 1))
         return us
 
 
